@@ -924,6 +924,42 @@ func checkC08(c *Ctx, r *Report) {
 		})
 		r.Check(ok, "C08.R5", "stored headers are the origin's header map", c.Pos(f.Pos()), "cachedRequestInfo.Header = resp.Header", "the header map stored with the entry is not the origin response's")
 	}
+	// a header line the origin sent is handed on in the origin's own spelling: where the proxy writes a validator of a
+	// stored response out again from its parsed form (Last-Modified from a time.Time), it does so only where the
+	// response being built does not carry the line already (the stored header map holds the original)
+	nFmt := 0
+	for _, f := range li.Fns {
+		if originPkgPath(f) != proxyPkg {
+			continue
+		}
+		eachCall(f, func(call ssa.CallInstruction, n string) {
+			if n != "("+responderPkg+".Responder).SetHeader" {
+				return
+			}
+			args := callArgs(call)
+			name, isC := constString(args[1])
+			if !isC || name != "Last-Modified" {
+				return
+			}
+			reformatted := derivesFrom(args[2], func(v ssa.Value) bool {
+				c2, ok := v.(*ssa.Call)
+				return ok && calleeName(c2) == "(time.Time).Format"
+			})
+			if !reformatted {
+				return
+			}
+			nFmt++
+			fs := factStrsCtx(li, f, call.(ssa.Instruction))
+			absent := false
+			for k := range fs {
+				if strings.Contains(k, "Get(") && strings.Contains(k, `"Last-Modified"`) && (strings.HasSuffix(k, `==""=true`) || strings.HasSuffix(k, `!=""=false`)) {
+					absent = true
+				}
+			}
+			r.Check(absent, "C08.R5", fnKey(f)+": a re-serialised Last-Modified replaces nothing the origin sent", c.InstrPos(call), "written only where the response has no Last-Modified line yet", "the stored response's Last-Modified is overwritten with the parsed time written out as an IMF-fixdate: an origin date in RFC 850 or asctime form reaches the client in another spelling than the origin sent (on hits and 206s, not on the relayed response)")
+		})
+	}
+	r.Floor("C08.R5", nFmt, 1, "Last-Modified headers written from a parsed time")
 	_ = token.ADD
 }
 
